@@ -165,6 +165,9 @@ type ctx struct {
 	knownLen     map[string]int
 	ghostConst   map[string]term
 	inInv        bool
+	inMerge      bool
+	memo         map[string][]memoEntry
+	readLog      []map[string]string
 	w        *world
 	con      *Contract
 	fn       *ssa.Function
@@ -398,6 +401,7 @@ func (x *ctx) akey(key string) string {
 func (x *ctx) arr(st *state, key string, indexed bool, elem srtT) string {
 	key = x.akey(key)
 	if a, ok := st.heap[key]; ok {
+		x.noteRead(key, a)
 		return a
 	}
 	hi, ok := x.hinfo[key]
@@ -411,6 +415,7 @@ func (x *ctx) arr(st *state, key string, indexed bool, elem srtT) string {
 		srt = fmt.Sprintf("(Array (_ BitVec 64) (Array (_ BitVec 64) %s))", hi.elem.name)
 	}
 	x.declare(name, srt)
+	x.noteRead(key, name)
 	return name
 }
 
@@ -1173,6 +1178,7 @@ func (x *ctx) run(st *state, fr *frame, b *ssa.BasicBlock, idx int, prev *ssa.Ba
 			}
 			return []outcome{{st: st, ret: r}}
 		case *ssa.Panic:
+			debugf("panic instruction in %s (spec=%d): %s", fr.fn, x.spec, in)
 			if x.spec == 0 && fr.con != nil && fr.con.Flags["nopanic"] {
 				x.oblige(st, "no-panic", "", "panic", "false", "explicit panic reachable")
 			}
